@@ -193,7 +193,7 @@ type transport struct{}
 
 func (transport) RoundTrip(req *http.Request) (*http.Response, error) {
 	cl := curr
-	if t := cl.cur; t != nil && t.running && t.goid == goid() {
+	if t := cl.cur; t != nil && t.running && t.kind != "add" && t.goid == goid() { // a split add has exactly one gate: inside factory.Create
 		// per-task nesting depth: only the task's own top-level requests are gates (handlers it reaches make nested ones)
 		top := atomic.AddInt32(&t.depth, 1) == 1
 		defer atomic.AddInt32(&t.depth, -1)
